@@ -51,7 +51,8 @@ Record binfact := mkBF {
   bf_cls : bop;             (* sqlglot class handed to binary_op / inverse_binary_op *)
   bf_self_left : bool;      (* the receiver ends up as the LEFT operand (this=) *)
   bf_paren : bool;          (* the result is wrapped in exp.Paren *)
-  bf_strlit : bool }.       (* a bare str operand becomes a string literal (not a column name) *)
+  bf_strlit : bool;         (* a bare str operand becomes a string literal (not a column name) *)
+  bf_opwrap : bool }.       (* operands go through _operand: a bare comparison-level / NOT-prefixed one is parenthesised *)
 Record unfact := mkUF { uf_not : bool; uf_paren : bool }.   (* exp.Not / exp.Neg ; operand wrapped in Paren *)
 
 Record cfg := mkCfg {
@@ -67,10 +68,23 @@ Record cfg := mkCfg {
   c_rlike_fn : string; c_startswith_fn : string; c_endswith_fn : string; c_substr_fn : string;
   c_getitem_lit_off : Z;          (* amount added to a literal index k: emitted as (k + off) *)
   c_getitem_col_off : Z;          (* ... to a Column index that contains no numeric literal *)
-  c_getitem_numkey_off : Z }.     (* ... to a Column index that contains one (element_at_using_brackets) *)
+  c_getitem_numkey_off : Z;       (* ... to a Column index that contains one (element_at_using_brackets) *)
+  c_pred_opwrap : bool;           (* isNull isNotNull isin between like ilike pass their operands through _operand *)
+  c_between_unalias : bool }.     (* between takes its bounds with .column_expression (no Alias node survives) *)
 
 (** ---- sqlframe's builder ---------------------------------------------------------------------- *)
-Definition mkbin (bf : binfact) (self other : sexpr) : sexpr :=
+(** column.py's _operand: the expression classes that are written bare *)
+Definition is_open (e : sexpr) : bool :=
+  match e with
+  | SBin o _ _ => match o with Add | Sub | Mul | Div | Mod => false | _ => true end
+  | SNot _ | SIsNull _ | SIn _ _ | SBetween _ _ _ => true
+  | _ => false
+  end.
+Definition wrap (w : bool) (e : sexpr) : sexpr := if w && is_open e then SParen e else e.
+
+Definition mkbin (bf : binfact) (self0 other0 : sexpr) : sexpr :=
+  let self := wrap (bf_opwrap bf) self0 in
+  let other := wrap (bf_opwrap bf) other0 in
   let core := if bf_self_left bf then SBin (bf_cls bf) self other else SBin (bf_cls bf) other self in
   if bf_paren bf then SParen core else core.
 Definition mkun (uf : unfact) (x : sexpr) : sexpr :=
@@ -118,12 +132,15 @@ Fixpoint build (c : cfg) (t : uexpr) : sexpr :=
       mkbin bf (build c a) (match b with UPy v => pylit (bf_strlit bf) v | _ => build c b end)
   | UNeg a => mkun (c_neg c) (build c a)
   | UNot a => mkun (c_not c) (build c a)
-  | UIsNull a => SIsNull (build c a)
-  | UIsNotNull a => SNot (if c_isnotnull_paren c then SParen (SIsNull (build c a)) else SIsNull (build c a))
-  | UIsin a vs => SIn (build c a) vs
-  | UBetween a lo hi => SBetween (build c a) (build c lo) (build c hi)
-  | ULike a p => SBin (c_like_cls c) (build c a) (SLit (VStr p))
-  | UILike a p => SBin (c_ilike_cls c) (build c a) (SLit (VStr p))
+  | UIsNull a => SIsNull (wrap (c_pred_opwrap c) (build c a))
+  | UIsNotNull a =>
+      let x := SIsNull (wrap (c_pred_opwrap c) (build c a)) in
+      SNot (if c_isnotnull_paren c then SParen x else x)
+  | UIsin a vs => SIn (wrap (c_pred_opwrap c) (build c a)) vs
+  | UBetween a lo hi =>
+      let w := c_pred_opwrap c in SBetween (wrap w (build c a)) (wrap w (build c lo)) (wrap w (build c hi))
+  | ULike a p => SBin (c_like_cls c) (wrap (c_pred_opwrap c) (build c a)) (SLit (VStr p))
+  | UILike a p => SBin (c_ilike_cls c) (wrap (c_pred_opwrap c) (build c a)) (SLit (VStr p))
   | URlike a p => SCall2 (c_rlike_fn c) (build c a) (SLit (VStr p))
   | UStartsWith a b => SCall2 (c_startswith_fn c) (build c a) (build c b)
   | UEndsWith a b => SCall2 (c_endswith_fn c) (build c a) (build c b)
